@@ -368,7 +368,34 @@ func ruleC16Cross(p *Prog, a *Anchors, r *Report) {
 		}
 		switch x := v.(type) {
 		case *ssa.Call:
-			return otherTemplate(x)
+			if o := otherTemplate(x); o != "" {
+				return o
+			}
+			if x.Common().StaticCallee() == upd && len(x.Common().Args) > 0 {
+				// the completed copy of an error is still that error
+				return origin(x.Common().Args[0], depth+1)
+			}
+			// a call through a function value (the tag dispatcher calling a tag's parser): what the possible callees of
+			// the package hand back as their error
+			if x.Common().StaticCallee() == nil && !x.Common().IsInvoke() && depth < 3 {
+				for _, g := range p.Callees(p.CG, x) {
+					if !p.InPkg(g) || g.Blocks == nil {
+						continue
+					}
+					ei := errorResultIndex(g)
+					if ei < 0 {
+						continue
+					}
+					for _, ret := range returnsOf(g) {
+						if ei < len(ret.Results) {
+							if o := origin(ret.Results[ei], depth+2); o != "" {
+								return o + " (handed on by " + p.FuncName(g) + ")"
+							}
+						}
+					}
+				}
+			}
+			return ""
 		case *ssa.Parameter:
 			// a helper that is handed the error (executionError(ctx, err)): where it comes from at the call sites
 			for _, s := range paramActualSites(p, x) {
@@ -403,11 +430,39 @@ func ruleC16Cross(p *Prog, a *Anchors, r *Report) {
 		}
 		return ""
 	}
+	// the completer itself may refuse: it gives its token's position only to an error that names the token's source or
+	// none (every store of Line in it stands behind such a test)
+	refuses, nLine := true, 0
+	for _, b := range upd.Blocks {
+		for _, in := range b.Instrs {
+			if st, ok := in.(*ssa.Store); ok && isFieldAddrOf(st.Addr, "Error", "Line") {
+				nLine++
+				if !Guarded(in, func(c ssa.Value, pol bool) bool { return sameSourceAtom(p, c, pol) }) {
+					refuses = false
+				}
+			}
+		}
+	}
+	refuses = refuses && nLine > 0
 	n := 0
 	count := map[string]int{}
 	for _, f := range p.inPkgFuncsSorted(p.allFuncSet()) {
 		for _, b := range f.Blocks {
 			for _, in := range b.Instrs {
+				// explicit stores of a position into such an error count like a completion
+				if st, ok := in.(*ssa.Store); ok && isFieldAddrOf(st.Addr, "Error", "Line") && f != upd {
+					base := st.Addr.(*ssa.FieldAddr).X
+					if from := origin(base, 0); from != "" {
+						n++
+						key := p.FuncName(f) + ":positions-error-of-other-template"
+						count[key]++
+						if count[key] > 1 {
+							key += "#" + itoa(int64(count[key]))
+						}
+						r.Bad(key, p.InstrPos(in), "the error returned by %s — which names the template that was loaded or executed there — is given a Line/Column of the referring template: the report reads `in <other file> | Line/Col of this file`", from)
+					}
+					continue
+				}
 				c, ok := in.(*ssa.Call)
 				if !ok || c.Common().StaticCallee() != upd || len(c.Common().Args) == 0 {
 					continue
@@ -421,6 +476,10 @@ func ruleC16Cross(p *Prog, a *Anchors, r *Report) {
 				count[key]++
 				if count[key] > 1 {
 					key += "#" + itoa(int64(count[key]))
+				}
+				if refuses {
+					r.OK(key, p.InstrPos(in), "the error returned by %s is handed to %s, which gives a position only to an error that names the token's source or none", from, p.FuncName(upd))
+					continue
 				}
 				r.Bad(key, p.InstrPos(in), "the error returned by %s — which names the template that was loaded or executed there — is given the position of a token of the referring template: the report reads `in <other file> | Line/Col of this file`", from)
 			}
